@@ -37,7 +37,7 @@ def g_table(spec):
 
 MUTATIONS = ["identity", "retype", "origin", "orientation", "name", "dest_add", "dest_remove", "dest_replace",
              "unit", "colname", "colorder", "cell", "row_add", "row_remove", "col_add", "col_remove",
-             "missing_flavour", "empty_vs_full", "unrelated", "nontable", "missing_respell", "strictness"]
+             "missing_flavour", "empty_vs_full", "unrelated", "nontable", "missing_respell", "strictness", "row_add_missing"]
 
 
 def mutate(rng, spec, mut):
@@ -132,7 +132,7 @@ def mutate(rng, spec, mut):
 class C14(Prop):
     id = "C14"
     coq_header = "From PdV.Corr Require Import C14."
-    rule = ("pairs (t, mutate(t)) for 22 single-aspect mutations of random tables (all column kinds, 0..6 rows), "
+    rule = ("pairs (t, mutate(t)) for 23 single-aspect mutations of random tables (all column kinds, 0..6 rows), "
             "both argument orders, plus unrelated pairs and non-table operands; expected verdict recomputed from "
             "the specifications; non-trivial = tables with at least one column; distinct = distinct pairs")
     assumptions = [
@@ -174,6 +174,14 @@ class C14(Prop):
                     if c["kind"] == "float":
                         c["values"] = [{"f": "nan"} for _ in c["values"]]
             mut = MUTATIONS[i % len(MUTATIONS)]
+            if mut == "row_add_missing":
+                # the same table with one or two extra rows at the end in which every cell is missing
+                t = T.gen_table(rng, odd=True, kinds=["float", "datetime", "float"], max_rows=3)
+                b = copy.deepcopy(t)
+                for c in b["cols"]:
+                    c["values"] += [{"f": "nan"} if c["kind"] == "float" else {"nat": 1}] * (1 + i % 2)
+                cases.append({"a": t, "b": b, "mut": mut})
+                continue
             if mut == "missing_respell":
                 # the same empty cell spelled None in one table and NaN / NaT in the other (text columns are object arrays)
                 tc = [c for c in t["cols"] if c["kind"] == "text" and len(c["values"]) >= 2]
